@@ -1730,6 +1730,15 @@ def family_ref_to_ours(ctx, j, quick, rnd, pool):
                     opt["check"] = "crc32"
                 scns.append({"id": f"ref-unc-{fmt}-{n}-{preset}", "fam": "read", "fmt": fmt, "multi": False, "seed": n + preset,
                              "parts": [{"k": fmt, "src": "ref", "opt": opt, "n": n, "class": "random", "seed": n}], "reads": [4096], "want_recs": fmt == "xz"})
+        # forged LZMA2 payloads of uncompressed chunks with the extreme size fields (0xFFFF = 65 536 bytes is what 7-Zip style
+        # encoders write for incompressible data; liblzma's decoder must accept the forged stream, see the sanity rule below)
+        for (n, piece) in ((65536, 65536), (131072, 65536), (200000, 65536), (70000, 65535), (5000, 1), (300000, 4096)):
+            opt = {"preset": 0, "dict": 1 << 20}
+            if fmt == "xz":
+                opt["check"] = "crc64"
+            scns.append({"id": f"forge-unc-{fmt}-{n}-{piece}", "fam": "read", "fmt": fmt, "multi": False, "seed": n + piece,
+                         "parts": [{"k": fmt, "src": "forge", "opt": opt, "n": n, "class": "random", "seed": n, "piece": piece,
+                                    "hc": fmt == "xz" and piece == 65536, "hu": False}], "reads": [4096], "want_recs": fmt == "xz"})
         scns.append({"id": f"ref-big-{fmt}", "fam": "read", "fmt": fmt, "multi": False, "seed": 5,
                      "parts": [{"k": fmt, "src": "ref", "opt": dict({"preset": 1, "dict": 1 << 20}, **({"check": "crc64"} if fmt == "xz" else {})),
                                 "n": 5 << 20, "class": "zeros", "seed": 1}], "reads": [65536], "want_recs": fmt == "xz"})
@@ -1743,8 +1752,13 @@ def family_ref_to_ours(ctx, j, quick, rnd, pool):
         if r1["outcome"] in ("build_err", "panic", "bad_family"):
             if r1["outcome"] == "build_err":
                 raise ToolError(f"reference encoder rejected configuration of {s['id']}: {r1.get('err')} {opt}")
-            j.violation("C03", f"the crate's {s['fmt']} reader panicked on a stream produced by liblzma (preset {opt.get('preset')}, {p['n']} bytes of "
-                               f"{p['class']} data): {r1.get('err')}", {"family": "ref_to_ours", "fmt": s["fmt"], "class": p["class"], "outcome": "panic"},
+            # confirm with the reference alone that the input is a valid stream holding the data
+            chk = run_scenarios([dict(strip(s), ref_only=True, id=s["id"] + "-refonly")])[0]
+            if not (chk.get("ref", {}).get("ok") and chk["ref"]["len"] == chk["content_lens"][0]):
+                raise ToolError(f"the crate panicked on {s['id']} but liblzma does not accept that input either: {chk.get('ref')}")
+            j.violation("C03", f"the crate's {s['fmt']} reader panicked on a valid stream ({p['src']}, preset {opt.get('preset')}, {p['n']} bytes of "
+                               f"{p['class']} data, uncompressed chunks of {p.get('piece') or 'n/a'} bytes) that liblzma decodes: {r1.get('err')}",
+                        {"family": "ref_to_ours", "fmt": s["fmt"], "src": p["src"], "unc_piece": p.get("piece") or 0, "outcome": "panic"},
                         {"scenario": strip(s), "source": "grid"})
             continue
         if not (r1["ref"]["ok"] and r1["ref"]["len"] == r1["content_lens"][0]):
@@ -1752,7 +1766,7 @@ def family_ref_to_ours(ctx, j, quick, rnd, pool):
         fc = "+".join(f["t"] for f in opt.get("filters") or []) or "none"
         j.classes.add(("ref_to_ours", s["fmt"], p["src"], opt.get("preset"), bool(opt.get("extreme")), fc, opt.get("check"), opt.get("mf"), opt.get("mode"),
                        (opt.get("lc"), opt.get("lp"), opt.get("pb")), len(p.get("cuts") or []), p.get("hc"), p.get("hu")))
-        base = {"family": "ref_to_ours", "fmt": s["fmt"], "src": p["src"], "filters": fc,
+        base = {"family": "ref_to_ours", "fmt": s["fmt"], "src": p["src"], "filters": fc, "unc_piece": p.get("piece") or 0,
                 "size_fields": bool(p.get("hc") or p.get("hu")), "blocks": "multi" if p.get("cuts") else "single"}
         if not (r1["outcome"] == "eof" and r1["matched"] >= 1 and r1["out_len"] == r1["content_lens"][0]):
             j.violation("C03", f"the crate does not decode a {s['fmt']} stream produced by liblzma ({p['src']}, preset {opt.get('preset')}, filters {fc}, "
